@@ -221,3 +221,75 @@ func VerifH_C02_polling_payload_v3() {
 	checkDelivered(rec, want)
 	verif.Assert((rec.count("close") == 1) == closed, "closed exactly when the payload carried a close packet")
 }
+
+// refEncodeFrame: one WebTransport frame, from the protocol text (minimal length form).
+func refEncodeFrame(binary bool, payload []byte) []byte {
+	var b0 byte
+	if binary {
+		b0 = 0x80
+	}
+	n := len(payload)
+	var out []byte
+	switch {
+	case n < 126:
+		out = append(out, b0|byte(n))
+	case n < 65536:
+		out = append(out, b0|126, byte(n>>8), byte(n))
+	default:
+		out = append(out, b0|127, 0, 0, 0, 0, byte(n>>24), byte(n>>16), byte(n>>8), byte(n))
+	}
+	return append(out, payload...)
+}
+
+// VerifH_C02_wt_boundary_frames: the same delivery property for frames whose payload length
+// sits on the boundaries of the length encoding (124..129 bytes; thorough also 65535..65537):
+// a frame of a boundary length, then a short one; both are delivered, once, in order, intact.
+func VerifH_C02_wt_boundary_frames() {
+	sizes := []int{124, 125, 126, 127, 128, 129}
+	if verif.Tier() > 0 {
+		sizes = append(sizes, 65535, 65536, 65537)
+	}
+	n := sizes[verif.Choose(len(sizes))]
+	binary := verif.Bool()
+	// the content is not the point here (C13-C15 cover it symbolically): a fixed pattern,
+	// with two symbolic bytes at the ends of a binary payload
+	payload := make([]byte, n)
+	for i := range payload {
+		payload[i] = 'a' + byte(i%23)
+	}
+	if binary {
+		payload[0], payload[n-1] = verif.Byte(), verif.Byte()
+	} else {
+		payload[0] = '4' // a text message frame: type character + text
+	}
+	wire := refEncodeFrame(binary, payload)
+	wire = append(wire, 0x80|2, 'o', 'k')
+	st := newMemStream(wire, io.EOF)
+	w, _ := newWT(st, "4")
+	w.SetMaxHttpBufferSize(1 << 20)
+	rec := &evRec{}
+	rec.listen(w, "packet", "error", "close")
+	verif.Settle()
+	verif.Assert(rec.count("packet") == 2, "both frames are delivered, one packet each")
+	if rec.count("packet") != 2 {
+		return
+	}
+	p := rec.args[rec.index("packet", 0)][0].(*packet.Packet)
+	got := readAll(p.Data)
+	want := payload
+	if !binary {
+		want = payload[1:]
+	}
+	verif.Assert(p.Type == packet.MESSAGE && len(got) == len(want), "the boundary-length frame is one message of the same length")
+	j := verif.Int(0, 3)
+	if j < len(got) && j < len(want) {
+		verif.Assert(got[j] == want[j], "bytes intact")
+	}
+	if len(got) == len(want) && len(want) > 0 {
+		verif.Assert(got[len(got)-1] == want[len(want)-1], "last byte intact")
+	}
+	_, isText := p.Data.(*types.StringBuffer)
+	verif.Assert(isText == !binary, "text/binary kind preserved")
+	q := rec.args[rec.index("packet", 1)][0].(*packet.Packet)
+	verif.Assert(sameBytes(readAll(q.Data), []byte("ok")), "the frame after it is intact")
+}
